@@ -30,6 +30,7 @@ type Outcome struct {
 	Inconclusive string     `json:",omitempty"`
 	Nontrivial   bool
 	Sig          string // distinctness signature
+	EvHash       string `json:",omitempty"` // canonical event-log hash (determinism self-test)
 	Gens         int
 	OpsRun       int
 	Steps        int64
@@ -50,6 +51,7 @@ type Outcome struct {
 
 func (o *Outcome) absorb(s *Sim) {
 	o.Gens = s.Gens
+	o.EvHash = fmt.Sprintf("%016x-%016x", s.EvHash, s.SchedHash)
 	o.Steps += s.Steps
 	o.SimNS += s.SimNS
 	o.SchedDecisions += s.SchedDecisions
